@@ -170,6 +170,16 @@ class Ctx:
                 for pat in FORBIDDEN:
                     for m in re.finditer(pat, txt):
                         hits.append("%s: %s" % (os.path.relpath(p, COQ), m.group(0)))
+                # Variable / Hypothesis / Context are allowed inside a Section only
+                depth = 0
+                for m in re.finditer(r"(?m)^\s*(Section|Module|End|Variables?|Hypothes[ie]s|Context)\b", txt):
+                    w = m.group(1)
+                    if w in ("Section", "Module"):
+                        depth += 1
+                    elif w == "End":
+                        depth = max(0, depth - 1)
+                    elif depth == 0:
+                        hits.append("%s: %s outside a Section" % (os.path.relpath(p, COQ), w))
         return hits
 
     def coq_build(self, targets, what):
